@@ -365,6 +365,22 @@ func (fc *FnCtx) stateKeys(st *State) []any {
 func (fc *FnCtx) contractCall(st *State, e *ast.CallExpr, fn *types.Func, sig *types.Signature, c *FuncContract, recv Term, hasRecv bool, args []Term, ctext string, ord int) []Term {
 	c.Used = true
 	fc.interleave(st, fn)
+	// f(a, b, c) for a variadic f: the contract speaks about the slice parameter, so the trailing arguments are
+	// packed into a slice value whose elements are exactly those arguments
+	if fs, ok := fn.Type().(*types.Signature); ok && fs.Variadic() && !e.Ellipsis.IsValid() {
+		np := fs.Params().Len()
+		if len(args) >= np-1 {
+			st0 := fs.Params().At(np - 1).Type()
+			rest := args[np-1:]
+			v := fc.freshSort("varargs", sortOf(st0))
+			v.T = st0
+			fc.assume(st, boolT(fmt.Sprintf("(= (slen %s) %d)", v.S, len(rest))))
+			for i, a := range rest {
+				fc.assume(st, boolT(fmt.Sprintf("(= (select (sarr %s) %d) %s)", v.S, i, a.S)))
+			}
+			args = append(append([]Term{}, args[:np-1]...), v)
+		}
+	}
 	if c.Trusted {
 		fc.trustedUsed[c.Key] = true
 	}
